@@ -88,6 +88,8 @@ Definition f_apply (f : frep) (wid : nat) :=
   mkfrep (f_open f) (f_mode f) (f_chain f)
          (match f_mode f with RRW => f_rev f + 1 | _ => f_rev f end)
          (f_cp f) (f_cpk f) (f_applied f ++ [wid]) (f_size f) (f_clone f).
+Definition f_copy_data (f src : frep) :=
+  mkfrep (f_open f) (f_mode f) (f_chain src) (f_rev f) (f_cp f) (f_cpk f) (f_applied src) (f_size f) (f_clone f).
 Definition f_set_size (f : frep) (z : Z) :=
   mkfrep (f_open f) (f_mode f) (f_chain f) (f_rev f) (f_cp f) (f_cpk f) (f_applied f) z (f_clone f).
 
@@ -280,7 +282,9 @@ Inductive event :=
 | Unmap (fs : faults)
 | Read (off len : Z) (order : list addr) (fs : faults)
 | Snapshot (name : nat) (fs : faults)
-| Resize (newsize : Z) (fs : faults).
+| Resize (newsize : Z) (fs : faults)
+| SyncData (a : addr).     (* not a controller request: the sync agent copies the snapshot files of the RW
+                              source into the rebuilding replica a (between add and verify) *)
 
 (** what an event did besides changing the state: start/add signals sent, replica that served a read *)
 Record eff := mkeff { e_signals : list (addr * bool); e_served : option addr }.   (* bool: true = "start" *)
@@ -690,6 +694,14 @@ Definition do_resize (s : cst) (sz : Z) (fs : faults) : cst * res :=
     else if flt fs 0%nat KFeResize then (s2, RErr)
     else (upd_csize s2 sz, ROk).
 
+(** the file sync of a rebuild, as far as the controller can see it: chain and content of the first RW
+    replica appear on the rebuilding one *)
+Definition do_sync_data (s : cst) (a : addr) : cst * res :=
+  match aget (replicas s) a, find (fun p => is_rw (snd p)) (replicas s) with
+  | Some WO, Some (r0, _) => (upd_rep s a (fun f => f_copy_data f (wget (w s) r0)), ROk)
+  | _, _ => (s, RNone)
+  end.
+
 (** ** the step function *)
 Definition step (s : cst) (e : event) : cst * res * eff :=
   match e with
@@ -712,6 +724,7 @@ Definition step (s : cst) (e : event) : cst * res * eff :=
   | Read off len order fs => do_read s off len order fs
   | Snapshot n fs => let '(s1, r) := do_snapshot s n fs in (s1, r, noeff)
   | Resize sz fs => let '(s1, r) := do_resize s sz fs in (s1, r, noeff)
+  | SyncData a => let '(s1, r) := do_sync_data s a in (s1, r, noeff)
   end.
 
 Fixpoint run (s : cst) (es : list event) : cst :=
